@@ -1,2 +1,3 @@
 //! Exact reference models (each a few dozen lines; the trusted base together with refhash/spec).
 pub mod hll;
+pub mod cpc;
